@@ -144,7 +144,9 @@ let run_trie_file (inp : in_channel) (out : out_channel) =
             let qb = bytes_of_hex q in
             let g = (match getid t qb with None -> -1 | Some i -> int_of_nat i) in
             (* GetID as the id loop of the Go code (Flat.fgetid) must agree with the tree recursion *)
-            let g = (match fgetid t qb with
+            (* node_at is a linear scan, so the id-loop cross-check is done on small tries only *)
+            let small = (match t.t_root with None -> true | Some r -> List.length (node_views r) <= 150) in
+            let g = if not small then g else (match fgetid t qb with
                 | Ok None -> if g = -1 then g else -777
                 | Ok (Some i) -> if int_of_nat i = g then g else -777
                 | Err _ -> -778) in
@@ -154,6 +156,14 @@ let run_trie_file (inp : in_channel) (out : out_channel) =
                 | Err e -> err_str e
                 | Ok ((l, e), r) -> Printf.sprintf "%s %s %s" (ov_str l) (ov_str e) (ov_str r)) in
             let ((il, ie), ir) = searchid t qb in
+            (* searchID as id loops (Flat.fsearchid) must agree with the tree recursion *)
+            let flat_ok = if not small then true else (match fsearchid t qb with
+                | Ok ((fl, fe), fr) ->
+                  let oi x = (match x with None -> -1 | Some i -> int_of_nat i) in
+                  oi fl = idstr il && oi fe = idstr ie && oi fr = idstr ir
+                | Err _ -> false) in
+            let il = if flat_ok then il else None in
+            let g = if flat_ok then g else -779 in
             pr "q %s G %d %s R %s S %s I %d %d %d\n" q g gv rv sv (idstr il) (idstr ie) (idstr ir))
        | "E" :: _ -> ignore (get_built ()); flush_case ()
        | "L" :: cid :: _ ->
